@@ -638,6 +638,8 @@ class Ctx:
     def real(self, name, lo=None, hi=None, lo_strict=False, hi_strict=False, nonzero=False):
         """A named real input.  Bounds are assumptions and are recorded."""
         if self.mode == "conc":
+            if name not in self.values:
+                raise ReplayIncomplete(name)
             return float(_str_to_frac(self.values[name])) if isinstance(self.values[name], str) \
                 else float(self.values[name])
         v = self._declare(name, "real")
@@ -1254,6 +1256,11 @@ class Ctx:
         raise HarnessError("trunc: unreachable")
 
 
+class ReplayIncomplete(BaseException):
+    """Concrete mode: the model has no value for an input the run asks for (the symbolic
+    path ended before declaring it)."""
+
+
 class FloatTie(BaseException):
     """Concrete mode only: the float run sits on a branch boundary (e.g. int() of a value
     within rounding distance of an integer); the comparison with the symbolic path is void."""
@@ -1355,6 +1362,8 @@ def run_path(harness, config, prefix=None, prefix_model=None, mode="sym", values
         c.aborted = "out-of-scope:%s" % (ex,)
     except FloatTie as ex:
         c.aborted = "tie:%s" % (ex,)
+    except ReplayIncomplete as ex:
+        c.aborted = "incomplete:%s" % (ex,)
     except Exception as ex:  # an exception the harness did not expect: an obligation
         import traceback
         tb = traceback.format_exc(limit=-6)
